@@ -361,6 +361,9 @@ func (e *Env) lookupLocal(name string) (tval, bool) {
 	for _, b := range fn.Blocks {
 		for _, in := range b.Instrs {
 			if a, ok := in.(*ssa.Alloc); ok && a.Comment == name {
+				if e.loop == nil && e.at != nil && !(b == e.at || b.Dominates(e.at)) {
+					continue // a variable of the same name on another path
+				}
 				if c, ok := fr.regs[a]; ok {
 					et, _ := deref(a.Type())
 					return e.load(c, et, e.st), true
@@ -1080,6 +1083,13 @@ func (e *Env) evalCall(x ECall) (tval, error) {
 func (e *Env) applySpec(sf *SpecFunc, args []tval) (tval, error) {
 	if e.depth > 12 {
 		return tval{}, fmt.Errorf("spec function nesting too deep (%s)", sf.Name)
+	}
+	// a parameter declared as a Variable takes interface values only (a local of the same name may be a
+	// concrete term on another path: the clause then does not apply there)
+	for i, p := range sf.Params {
+		if i < len(args) && len(p) > 1 && (p[1] == "Variable" || p[1] == "frontend.Variable") && args[i].T != nil && !isIfaceT(args[i].T) {
+			return tval{}, fmt.Errorf("%s: argument %d is a %s, not a Variable", sf.Name, i, args[i].T)
+		}
 	}
 	if sf.Body != nil {
 		if len(args) != len(sf.Params) {
